@@ -103,6 +103,7 @@ def make_cases(rng, tier):
         pre = g.history(rng.randint(3, 20))
         cont = g.history(rng.randint(3, 12))[0:]
         cs.append((g.price, pre + ["FORK " + rng.choice(lvl.VIAS)] + cont + ["MATCH 18446744073709551615 u7999"]))
+    cs += deep_histories(rng, 10 if tier == "quick" else 300, fork=True)
     return cs
 
 
